@@ -181,6 +181,11 @@ func (v *ParticipationRegistryView) Raw() (ParticipationRegistry, error) {
 }
 
 func (v *ParticipationRegistryView) FillZeroes(length uint64) error {
+	if length == 0 {
+		// an empty registry is the default backing; tree.SubtreeFillToLength is not defined for zero nodes
+		// (for a registry limit of at most 32 flags, i.e. depth 0, it decrements its uint8 depth below zero)
+		return v.SetBacking(v.BasicListTypeDef.DefaultNode())
+	}
 	// 32 flags (uint8) per node (bytes32)
 	nodesLen := (length + 31) / 32
 	depth := tree.CoverDepth(v.BottomNodeLimit())
